@@ -82,10 +82,28 @@ def keyJ (k : Key) : Json :=
   .arr #[.str k.1, match k.2 with | some n => .str n | none => .null]
 
 open Kopf.C19.Ens in
+def keyOf? (j : Json) : Option Key := do
+  match ← jArr? j with
+  | [n, ns] => some (← jStr? n, ← jOpt? jStr? ns)
+  | _ => none
+
+open Kopf.C19.Ens in
+/-- a step is an insights object, or `{"die": [[name, ns], …]}`: those tasks exit on their own -/
+def stepOf? (j : Json) : Option (List Ev) :=
+  match jField? j "die" with
+  | some ks => do
+      let keys ← (← jArr? ks).mapM keyOf?
+      some (keys.map Ev.die)
+  | none => do
+      let ins ← insightsOf? j
+      some [Ev.pass ins]
+
+open Kopf.C19.Ens in
 /-- After every `adjust_tasks`: the watcher keys, each with "is this task new in this step". -/
-def histSteps (e : Ensemble) : List Insights → List Json
+def histSteps (e : Ensemble) : List Ev → List Json
   | [] => []
-  | ins :: rest =>
+  | .die k :: rest => histSteps (kill e k) rest
+  | .pass ins :: rest =>
       let e' := adjust e ins
       let row := e'.watchers.map (fun t => Json.arr #[keyJ t.1, .bool (decide (e.next ≤ t.2))])
       Json.arr row.toArray :: histSteps e' rest
@@ -106,8 +124,8 @@ def handle : DrvHandler := fun op args =>
         ("paused", .bool w.paused),
         ("pauseSeen", .bool w.pauseSeen)]))
   | "C19.adjust", [hist] => do
-      let h ← (← jArr? hist).mapM insightsOf?
-      some (ok (.arr (histSteps Ens.empty h).toArray))
+      let h ← (← jArr? hist).mapM stepOf?
+      some (ok (.arr (histSteps Ens.empty h.flatten).toArray))
   | _, _ => none
 
 end Kopf.Drv.C19
